@@ -178,6 +178,20 @@ def run(p):
         check_formula(p, t, None, xyz, rand_epoch(rng, t), worst)
         if rng.random() < 0.5:
             check_reversible(p, t, None, X.surface_point(rng), rand_epoch(rng, t), worst)
+    # (c3) two sets that differ in ONE parameter only, by -1 versus -2 (values that hash alike in CPython), applied at the same epoch one
+    #      after the other: each follows its own numbers
+    for _ in range(p.n(60, 1500)):
+        base = random_dated_set(rng, False)
+        fld = rng.choice(X.P7[:4] + X.R7[:3])
+        vals = {f: getattr(base, f) for f in X.P7 + X.R7}
+        e = rand_epoch(rng, base)
+        xyz = X.surface_point(rng)
+        for v in rng.sample([-1.0, -2.0, -1, -2], 3):
+            vals[fld] = v
+            t = K.Transformation('A', 'B', base.ref_epoch, *[vals[f] for f in X.P7 + X.R7])
+            if max(abs(float(q)) for q in X.params_at(t, e)[4:]) < 59.9:
+                check_formula(p, t, None, xyz, e, worst)
+        p.stats.add('sets-differing-in-one-whole-number')
     # (d) ATRF2014 <-> GDA2020
     e2020 = datetime.date(2020, 1, 1)
     for _ in range(p.n(1000, 40000)):
